@@ -69,7 +69,7 @@ def run(ctx):
     elif quick:
         args += ["--nprobe", "25000", "--ndoc", "2500", "--njson", "2500"]
     else:
-        args += ["--nprobe", "400000", "--ndoc", "40000", "--njson", "40000"]
+        args += ["--nprobe", "250000", "--ndoc", "25000", "--njson", "25000"]
     p = vlib.run(args, timeout=3000)
     dist = {}
     oracle_disagree = 0
